@@ -424,18 +424,24 @@ def rule_i5(F):
         r.missing("ScopeGraph::insert_declaration")
     else:
         b = F.body(cands[0])
-        ok = False
-        for m in hir.find_match_on(b.hir["value"], "Entry::", min_arms=2):
-            for row in hir.table(m):
-                if not any(a.startswith("Entry::Occupied") for a in row["alts"]):
-                    continue
-                for iff in hir.nodes(row["body"], "if"):
-                    cond_calls = [hir.result_desc(c["f"]) for c in hir.nodes(iff["cond"], "call")]
-                    els = iff.get("else")
-                    d = hir.result_desc(els) if els else None
-                    if any(x and "update_if" in x for x in cond_calls) and d and "Err" in d:
-                        ok = True
-        r.inst("insert_declaration refuses occupied", {"ok": ok})
+        defs = mir.Defs(b)
+        dom = mir.dominators(b)
+        ins = mir.vacant_only_insertions(b, defs, dom)
+        # calls of the predicate parameter (`update_if`): Fn::call on something that comes from a parameter
+        pred = []
+        for bi, t in mir.calls(b):
+            if (mir.callee_def(t) or "").startswith("std::ops::Fn") and t["args"] and mir.is_place_op(t["args"][0]):
+                root, _ = mir.origin(b, defs, t["args"][0][1])
+                if root.startswith("arg"):
+                    pred.append(bi)
+        oks = mir.ok_exits(b)
+        ok = bool(oks)
+        for ob in oks:
+            fresh = any(ib in dom[ob] for ib in ins)
+            allowed = any(pb in dom[ob] and mir.decided_by(b, defs, dom, pb, ob) for pb in pred)
+            if not (fresh or allowed):
+                ok = False
+        r.inst("insert_declaration refuses occupied", {"ok": ok, "successful_exits": len(oks), "new_key_insertions": len(ins), "predicate_calls": len(pred)})
         if not ok:
             r.bad(b.path, "occupied", relfile(b.file), b.line, "insert_declaration no longer returns Err for a name that is already declared (unless update_if allows the overwrite)")
     return r
